@@ -48,7 +48,9 @@ def seq(term, ty, src="slice", ops=None):
     name = cfg_name("c08_max1", term, p.type(), src, ("eager_" + sig) if p.eager_sites() else "")
     return H(name, body, {"terminal": term, "type": p.type(), "pipeline": p.descr(), "n": n, "threads": 1, "num_threads": "Max(1)",
                           "available_parallelism": 4, "schedule": "must stay on the caller"},
-             unwind=(2 * n + 3 if any(o.kind == "flat_map" for o in p.ops) else n + 3), weight=6)
+             # 23: if a Max(1) computation wrongly reaches Runner::new, its auto-chunk search (21 halvings) must unwind so
+             # that the wrong scope entry is reported as the violation it is (and not as an unwinding failure)
+             unwind=23, weight=6)
 
 
 def harnesses(tier, seed):
